@@ -2,10 +2,14 @@
 //
 // extract: minimum word length sites, parser states, the isCharacter / isApostrophe expressions
 // (sql/fulltext/default_parser.go), maxWordLength (schema.go), the maxWordLength guards of the editor.
+// The shape of GetKeyColumns (what its loops range over) and of the positional parent-index probe of
+// fulltextFilterTableRowIter; a run table: fulltext.GetKeyColumns + the selected parent index on a
+// freshly created table of every key layout.
 // run: (tok) fulltext.NewDefaultParser on generated documents vs the Lean tokenizer model and its
-// Spec; (hist) FULLTEXT tables in the real engine under DML histories: MATCH … AGAINST results
-// (WHERE form and SELECT-expression form) and the contents of the four pseudo-index tables vs the
-// Lean Spec computed from the reference table contents.
+// Spec; (hist) FULLTEXT tables in the real engine over 12 key layouts under DML histories: MATCH … AGAINST
+// results (WHERE form and SELECT-expression form) and the contents of the four pseudo-index tables
+// (key columns in stored order) vs the Lean Spec computed from the reference table contents; oracle:
+// the WHERE form and the select-list form select the same set of rows.
 package main
 
 import (
@@ -41,7 +45,15 @@ func extract(a hx.ExtractArgs) error {
 	if err != nil {
 		return err
 	}
-	lf := hx.NewLeanFile("Gms.Generated.C51", dp.Path, sc.Path, ed.Path)
+	ft, err := hx.ParseSrc(a.Repo, "sql/fulltext/fulltext.go")
+	if err != nil {
+		return err
+	}
+	fl, err := hx.ParseSrc(a.Repo, "sql/rowexec/fulltext_filter.go")
+	if err != nil {
+		return err
+	}
+	lf := hx.NewLeanFile("Gms.Generated.C51", dp.Path, sc.Path, ed.Path, ft.Path, fl.Path)
 
 	np, err := dp.Func("", "NewDefaultParser")
 	if err != nil {
@@ -137,7 +149,192 @@ func extract(a hx.ExtractArgs) error {
 		})
 		lf.DefNat("maxLenGuards"+m, cnt)
 	}
+
+	// GetKeyColumns: what the loops that build `columns` / `positions` range over (primary key: the
+	// declaration-order ordinals; unique key: the index expressions), the `copy` into positions, the
+	// order of the KeyType results
+	gk, err := ft.Func("", "GetKeyColumns")
+	if err != nil {
+		return err
+	}
+	var ranges, copies, ktypes, appends []string
+	ast.Inspect(gk.Body, func(n ast.Node) bool {
+		switch x := n.(type) {
+		case *ast.RangeStmt:
+			ranges = append(ranges, ft.Text(x.X))
+		case *ast.CallExpr:
+			switch ft.Text(x.Fun) {
+			case "copy":
+				copies = append(copies, ft.Text(x))
+			case "append":
+				if len(x.Args) == 2 && ft.Text(x.Args[0]) == "positions" {
+					appends = append(appends, ft.Text(x.Args[1]))
+				}
+			}
+		case *ast.KeyValueExpr:
+			if ft.Text(x.Key) == "Type" {
+				ktypes = append(ktypes, ft.Text(x.Value))
+			}
+		}
+		return true
+	})
+	if len(ranges) == 0 || len(ktypes) == 0 {
+		return fmt.Errorf("GetKeyColumns: expected shape not found (ranges %v, key types %v)", ranges, ktypes)
+	}
+	lf.DefStringList("keyColsRanges", ranges)
+	lf.DefStringList("keyColsCopies", copies)
+	lf.DefStringList("keyColsPositionAppends", appends)
+	lf.DefStringList("keyColsTypes", ktypes)
+
+	// fulltextFilterTableRowIter.Next: the key values of a DOC_COUNT row are used positionally as the
+	// ranges of the parent index; PartitionRows: which parent index is selected
+	nx, err := fl.Func("fulltextFilterTableRowIter", "Next")
+	if err != nil {
+		return err
+	}
+	var fRanges, fAssign []string
+	ast.Inspect(nx.Body, func(n ast.Node) bool {
+		switch x := n.(type) {
+		case *ast.RangeStmt:
+			fRanges = append(fRanges, fl.Text(x.X))
+			for _, st := range x.Body.List {
+				if as, ok := st.(*ast.AssignStmt); ok && len(as.Lhs) == 1 {
+					fAssign = append(fAssign, fl.Text(as.Lhs[0]))
+				}
+			}
+		}
+		return true
+	})
+	pr, err := fl.Func("FulltextFilterTable", "PartitionRows")
+	if err != nil {
+		return err
+	}
+	var idTests []string
+	ast.Inspect(pr.Body, func(n ast.Node) bool {
+		if be, ok := n.(*ast.BinaryExpr); ok && be.Op == token.EQL && fl.Text(be.X) == "index.ID()" {
+			idTests = append(idTests, fl.Text(be.Y))
+		}
+		return true
+	})
+	if len(fRanges) == 0 || len(idTests) == 0 {
+		return fmt.Errorf("fulltext_filter.go: expected shape not found (ranges %v, index tests %v)", fRanges, idTests)
+	}
+	lf.DefStringList("filterKeyRanges", fRanges)
+	lf.DefStringList("filterRangeTargets", fAssign)
+	lf.DefStringList("filterParentIndexIDs", idTests)
+
+	// GetKeyColumns and the parent index the filter selects, observed on a freshly created table of every
+	// key layout of the envelope (both column placements)
+	runs, err := keyColumnRuns()
+	if err != nil {
+		return err
+	}
+	lf.Raw("/-- ((pk, uks, nn), (key type 0 primary / 1 unique / 2 none, number of the unique key, KeyColumns.Positions,\n    columns of the selected parent index)) — columns as ordinals 0 = id, 1 = k2 -/\n")
+	lf.Raw("def keyColsRuns : List ((List Nat × List (List Nat) × List Nat) × (Nat × Nat × List Nat × List Nat)) := [\n  " + strings.Join(runs, ",\n  ") + "]\n")
 	return lf.Write(a.Out)
+}
+
+func leanNats(l []int) string {
+	parts := make([]string, len(l))
+	for i, x := range l {
+		parts[i] = strconv.Itoa(x)
+	}
+	return "[" + strings.Join(parts, ", ") + "]"
+}
+
+// keyColumnRuns creates a table of every layout in a fresh engine and records what
+// fulltext.GetKeyColumns resolves on it and the columns of the parent index that
+// FulltextFilterTable.PartitionRows would select (ID "PRIMARY" / KeyColumns.Name).
+func keyColumnRuns() ([]string, error) {
+	var res []string
+	for _, lay := range layouts {
+		for _, tail := range []bool{false, true} {
+			lay.tail = tail
+			e := eng.New("d")
+			ctx := e.Ctx()
+			ddl := lay.createSQL("t", false, 1)
+			if r := e.Query(ctx, ddl); r.Class() != "ok" {
+				return nil, fmt.Errorf("%s: %s (%v)", ddl, r.Class(), r.Err)
+			}
+			tbl, ok, err := e.DBs[0].GetTableInsensitive(ctx, "t")
+			if err != nil || !ok {
+				return nil, fmt.Errorf("%s: table not found (%v)", ddl, err)
+			}
+			kc, _, err := fulltext.GetKeyColumns(ctx, tbl)
+			if err != nil {
+				return nil, fmt.Errorf("%s: GetKeyColumns: %v", ddl, err)
+			}
+			ordOf := func(name string) (int, error) {
+				if i := strings.LastIndex(name, "."); i >= 0 {
+					name = name[i+1:]
+				}
+				for o, n := range intCols {
+					if strings.EqualFold(n, name) {
+						return o, nil
+					}
+				}
+				return 0, fmt.Errorf("%s: key column %q is not an integer column of the layout", ddl, name)
+			}
+			sch := tbl.Schema(ctx)
+			var positions []int
+			for _, p := range kc.Positions {
+				if p < 0 || p >= len(sch) {
+					return nil, fmt.Errorf("%s: position %d outside the schema", ddl, p)
+				}
+				o, err := ordOf(sch[p].Name)
+				if err != nil {
+					return nil, err
+				}
+				positions = append(positions, o)
+			}
+			code, ukNo := 2, 0
+			var ixCols []int
+			if kc.Type != fulltext.KeyType_None {
+				want := "PRIMARY"
+				code = 0
+				if kc.Type == fulltext.KeyType_Unique {
+					code, want = 1, kc.Name
+					if n, err := strconv.Atoi(strings.TrimPrefix(kc.Name, "u")); err == nil {
+						ukNo = n
+					} else {
+						return nil, fmt.Errorf("%s: unexpected unique key name %q", ddl, kc.Name)
+					}
+				}
+				ia, ok := tbl.(sql.IndexAddressable)
+				if !ok {
+					return nil, fmt.Errorf("%s: table is not index addressable", ddl)
+				}
+				idxs, err := ia.GetIndexes(ctx)
+				if err != nil {
+					return nil, err
+				}
+				found := false
+				for _, ix := range idxs {
+					if ix.ID() == want {
+						found = true
+						for _, ex := range ix.Expressions() {
+							o, err := ordOf(ex)
+							if err != nil {
+								return nil, err
+							}
+							ixCols = append(ixCols, o)
+						}
+						break
+					}
+				}
+				if !found {
+					return nil, fmt.Errorf("%s: parent index %q not found", ddl, want)
+				}
+			}
+			var uks []string
+			for _, u := range lay.uks {
+				uks = append(uks, leanNats(u))
+			}
+			res = append(res, fmt.Sprintf("((%s, [%s], %s), (%d, %d, %s, %s))", leanNats(lay.pk), strings.Join(uks, ", "), leanNats(lay.nn),
+				code, ukNo, leanNats(positions), leanNats(ixCols)))
+		}
+	}
+	return res, nil
 }
 
 // ---------------------------------------------------------------------------------------------
@@ -251,9 +448,176 @@ func tokCase(out *hx.Out, ctx *sql.Context, ci bool, doc string) {
 // ---------------------------------------------------------------------------------------------
 // hist: engine histories
 
+// layout is the key layout of the parent table over the integer columns id (ordinal 0) and k2
+// (ordinal 1); see `Layout` in lean/Gms/Model/Fulltext.lean.
+type layout struct {
+	name string
+	k2   bool    // the table has the column k2
+	pk   []int   // PRIMARY KEY column ordinals in declaration order
+	uks  [][]int // UNIQUE KEYs u0, u1, … (GetIndexes lists them by name) with their columns in declaration order
+	nn   []int   // ordinals declared NOT NULL
+	tail bool    // the integer columns are declared after the text columns
+}
+
+var intCols = []string{"id", "k2"}
+
+// layouts: every kind of row key GetKeyColumns can resolve — primary key (single, composite in
+// column order, composite declared OUT of column order, on the second column only), usable unique
+// key (in / out of column order, the first of two usable ones), unique key with a nullable column
+// (falls back to the row hash although the table enforces the key), no key at all.
+// Outside the envelope: a unique key with a nullable column listed BEFORE a usable unique key
+// (`UNIQUE KEY u0 (id, k2), UNIQUE KEY u1 (k2)`, id nullable): GetKeyColumns does not reset `columns` /
+// `positions` when it skips u0, so the usable key inherits u0's columns (C0, C1, C0) and CREATE TABLE
+// fails with "Full-Text table `t_ft_0_FTS_POSITION` column `C0` has an incorrect definition" — a genuine
+// defect of the unchanged tree, but of index creation (no FULLTEXT index exists afterwards), not of
+// matching / staying in sync.
+var layouts = []layout{
+	{name: "none1"},
+	{name: "pk1", pk: []int{0}},
+	{name: "pk_ab", k2: true, pk: []int{0, 1}},
+	{name: "pk_ba", k2: true, pk: []int{1, 0}},
+	{name: "pk_b", k2: true, pk: []int{1}},
+	{name: "uk1", uks: [][]int{{0}}, nn: []int{0}},
+	{name: "uk_ab", k2: true, uks: [][]int{{0, 1}}, nn: []int{0, 1}},
+	{name: "uk_ba", k2: true, uks: [][]int{{1, 0}}, nn: []int{0, 1}},
+	{name: "uk_null", k2: true, uks: [][]int{{1, 0}}, nn: []int{0}},
+	{name: "uk_first", k2: true, uks: [][]int{{1}, {0, 1}}, nn: []int{0, 1}},
+	{name: "pk_ba_uk", k2: true, pk: []int{1, 0}, uks: [][]int{{0}}, nn: []int{0}},
+	{name: "none2", k2: true},
+}
+
+func layoutByName(n string) layout {
+	for _, l := range layouts {
+		if l.name == n {
+			return l
+		}
+	}
+	panic("no layout " + n)
+}
+
+func has(l []int, x int) bool {
+	for _, y := range l {
+		if y == x {
+			return true
+		}
+	}
+	return false
+}
+
+// keyPositions mirrors GetKeyColumns on the layout (the Lean model `getKeyColumns`; the real function
+// is dumped per layout by `extract` and compared with the model by `facts_key_columns`): nil = row hash.
+func (l layout) keyPositions() []int {
+	if len(l.pk) > 0 {
+		return l.pk
+	}
+	for _, u := range l.uks {
+		ok := true
+		for _, c := range u {
+			ok = ok && has(l.nn, c)
+		}
+		if ok {
+			return u
+		}
+	}
+	return nil
+}
+
+func (l layout) keyed() bool { return l.keyPositions() != nil }
+
+func (l layout) constraints() [][]int {
+	var cs [][]int
+	if len(l.pk) > 0 {
+		cs = append(cs, l.pk)
+	}
+	return append(cs, l.uks...)
+}
+
+func ordList(tag string, l []int) string {
+	parts := []string{}
+	if tag != "" {
+		parts = append(parts, tag)
+	}
+	for _, x := range l {
+		parts = append(parts, strconv.Itoa(x))
+	}
+	return hx.List(parts...)
+}
+
+func (l layout) sexp() string {
+	k2 := "0"
+	if l.k2 {
+		k2 = "1"
+	}
+	uks := []string{"uks"}
+	for _, u := range l.uks {
+		uks = append(uks, ordList("", u))
+	}
+	return hx.List("lay", k2, ordList("pk", l.pk), hx.List(uks...), ordList("nn", l.nn))
+}
+
+func colNamesOf(ords []int) string {
+	var n []string
+	for _, o := range ords {
+		n = append(n, intCols[o])
+	}
+	return strings.Join(n, ", ")
+}
+
+// createSQL renders CREATE TABLE for the layout (table name tn) with ncols indexed text columns.
+func (l layout) createSQL(tn string, ci bool, ncols int) string {
+	coll := "utf8mb4_0900_bin"
+	if ci {
+		coll = "utf8mb4_0900_ai_ci"
+	}
+	var ints []string
+	for o, n := range intCols {
+		if o == 1 && !l.k2 {
+			continue
+		}
+		d := n + " INT"
+		if has(l.nn, o) {
+			d += " NOT NULL"
+		}
+		ints = append(ints, d)
+	}
+	texts := []string{"a TEXT COLLATE " + coll}
+	if ncols == 2 {
+		texts = append(texts, "b VARCHAR(300) COLLATE "+coll)
+	}
+	var defs []string
+	if l.tail {
+		defs = append(append(defs, texts...), ints...)
+	} else {
+		defs = append(append(defs, ints...), texts...)
+	}
+	if len(l.pk) > 0 {
+		defs = append(defs, "PRIMARY KEY ("+colNamesOf(l.pk)+")")
+	}
+	for i, u := range l.uks {
+		defs = append(defs, fmt.Sprintf("UNIQUE KEY u%d (%s)", i, colNamesOf(u)))
+	}
+	defs = append(defs, "FULLTEXT KEY ft ("+ftColsOf(ncols)+")")
+	return "CREATE TABLE " + tn + " (" + strings.Join(defs, ", ") + ")"
+}
+
+func ftColsOf(ncols int) string {
+	if ncols == 2 {
+		return "a, b"
+	}
+	return "a"
+}
+
+func (l layout) rowCols() string {
+	if l.k2 {
+		return "id, k2"
+	}
+	return "id"
+}
+
 type op struct {
-	kind string // ins del upd rekey
+	kind string // ins del upd rekey rekey2
 	id   int
+	k2   int
 	n    int
 	cols []*string
 }
@@ -267,7 +631,13 @@ func colSexp(c *string) string {
 
 func (o op) sexp() string {
 	switch o.kind {
-	case "ins", "upd":
+	case "ins":
+		parts := []string{o.kind, strconv.Itoa(o.id), strconv.Itoa(o.k2)}
+		for _, c := range o.cols {
+			parts = append(parts, colSexp(c))
+		}
+		return hx.List(parts...)
+	case "upd":
 		parts := []string{o.kind, strconv.Itoa(o.id)}
 		for _, c := range o.cols {
 			parts = append(parts, colSexp(c))
@@ -276,7 +646,7 @@ func (o op) sexp() string {
 	case "del":
 		return hx.List("del", strconv.Itoa(o.id))
 	}
-	return hx.List("rekey", strconv.Itoa(o.id), strconv.Itoa(o.n))
+	return hx.List(o.kind, strconv.Itoa(o.id), strconv.Itoa(o.n))
 }
 
 func colLit(c *string) string {
@@ -288,14 +658,17 @@ func colLit(c *string) string {
 
 var colNames = []string{"a", "b"}
 
-func (o op) sql() string {
+func (o op) sql(l layout) string {
 	switch o.kind {
 	case "ins":
 		vals := []string{strconv.Itoa(o.id)}
+		if l.k2 {
+			vals = append(vals, strconv.Itoa(o.k2))
+		}
 		for _, c := range o.cols {
 			vals = append(vals, colLit(c))
 		}
-		return "INSERT INTO t VALUES (" + strings.Join(vals, ", ") + ")"
+		return "INSERT INTO t (" + l.rowCols() + ", " + ftColsOf(len(o.cols)) + ") VALUES (" + strings.Join(vals, ", ") + ")"
 	case "upd":
 		var sets []string
 		for i, c := range o.cols {
@@ -304,6 +677,8 @@ func (o op) sql() string {
 		return "UPDATE t SET " + strings.Join(sets, ", ") + " WHERE id = " + strconv.Itoa(o.id)
 	case "del":
 		return "DELETE FROM t WHERE id = " + strconv.Itoa(o.id)
+	case "rekey2":
+		return "UPDATE t SET k2 = " + strconv.Itoa(o.n) + " WHERE id = " + strconv.Itoa(o.id)
 	}
 	return "UPDATE t SET id = " + strconv.Itoa(o.n) + " WHERE id = " + strconv.Itoa(o.id)
 }
@@ -320,46 +695,123 @@ func sortedRows(res *eng.Res, f func(row []string) string) string {
 	return plist(items)
 }
 
-func histCase(out *hx.Out, ci, keyed bool, ncols int, ops []op, queries []string) {
+// realKeyOrdinals: the parent columns (as ordinals 0 = id, 1 = k2) that the key columns C0, C1, … of the
+// pseudo-index tables hold, according to the real fulltext.GetKeyColumns on the created table; nil when
+// it cannot be determined (the dump is then printed as stored).
+func realKeyOrdinals(ctx *sql.Context, e *eng.Eng, lay layout) []int {
+	var res []int
+	hx.Safe(func() {
+		tbl, ok, err := e.DBs[0].GetTableInsensitive(ctx, "t")
+		if err != nil || !ok {
+			return
+		}
+		kc, _, err := fulltext.GetKeyColumns(ctx, tbl)
+		if err != nil {
+			return
+		}
+		sch := tbl.Schema(ctx)
+		var ords []int
+		for _, p := range kc.Positions {
+			if p < 0 || p >= len(sch) {
+				return
+			}
+			o := -1
+			for i, n := range intCols {
+				if strings.EqualFold(n, sch[p].Name) {
+					o = i
+				}
+			}
+			if o < 0 {
+				return
+			}
+			ords = append(ords, o)
+		}
+		res = ords
+	})
+	return res
+}
+
+func histCase(out *hx.Out, ci bool, lay layout, ncols int, ops []op, queries []string) {
 	// a fresh engine per history: DROP TABLE leaves the pseudo-index tables of the dropped table behind
 	e := eng.New("d")
 	ctx := e.Ctx()
-	coll := "utf8mb4_0900_bin"
-	if ci {
-		coll = "utf8mb4_0900_ai_ci"
-	}
-	idDef := "id INT"
-	if keyed {
-		idDef = "id INT PRIMARY KEY"
-	}
-	cols := []string{idDef, "a TEXT COLLATE " + coll}
-	ftCols := "a"
-	if ncols == 2 {
-		cols = append(cols, "b VARCHAR(300) COLLATE "+coll)
-		ftCols = "a, b"
-	}
-	e.MustExec(ctx, "CREATE TABLE t ("+strings.Join(cols, ", ")+", FULLTEXT KEY ft ("+ftCols+"))")
+	keyed := lay.keyed()
+	ftCols := ftColsOf(ncols)
+	e.MustExec(ctx, lay.createSQL("t", ci, ncols))
 	stmtClasses := map[string]int{}
 	for _, o := range ops {
-		r := e.Query(ctx, o.sql())
+		r := e.Query(ctx, o.sql(lay))
 		stmtClasses[r.Class()]++
 	}
 	var obs string
+	var setDiff string // model-free oracle: the WHERE form selects a different SET of rows than the select-list form
+	// a row of the parent table as the observation names it: id | id:k2
+	rowS := func(r []string) string {
+		if lay.k2 {
+			return r[0] + ":" + r[1]
+		}
+		return r[0]
+	}
+	nInt := 1
+	if lay.k2 {
+		nInt = 2
+	}
 	p := hx.Safe(func() {
 		var mw, me []string
 		for _, q := range queries {
-			r1 := e.Query(ctx, "SELECT id FROM t WHERE MATCH("+ftCols+") AGAINST ("+sqlStr(q)+")")
-			r2 := e.Query(ctx, "SELECT id FROM (SELECT id, MATCH("+ftCols+") AGAINST ("+sqlStr(q)+") AS rel FROM t) x WHERE rel > 0")
-			mw = append(mw, sortedRows(r1, func(r []string) string { return r[0] }))
-			me = append(me, sortedRows(r2, func(r []string) string { return r[0] }))
+			r1 := e.Query(ctx, "SELECT "+lay.rowCols()+" FROM t WHERE MATCH("+ftCols+") AGAINST ("+sqlStr(q)+")")
+			r2 := e.Query(ctx, "SELECT "+lay.rowCols()+" FROM (SELECT "+lay.rowCols()+", MATCH("+ftCols+") AGAINST ("+sqlStr(q)+") AS rel FROM t) x WHERE rel > 0")
+			mw = append(mw, sortedRows(r1, rowS))
+			me = append(me, sortedRows(r2, rowS))
+			if r1.Class() == "ok" && r2.Class() == "ok" && setDiff == "" {
+				inW, inE := map[string]bool{}, map[string]bool{}
+				for _, r := range r1.Rows {
+					inW[rowS(r)] = true
+				}
+				for _, r := range r2.Rows {
+					inE[rowS(r)] = true
+				}
+				for k := range inE {
+					if !inW[k] {
+						setDiff = "AGAINST(" + sqlStr(q) + "): row " + k + " has MATCH > 0 in the select list but is not returned by WHERE MATCH"
+					}
+				}
+				for k := range inW {
+					if !inE[k] && setDiff == "" {
+						setDiff = "AGAINST(" + sqlStr(q) + "): row " + k + " is returned by WHERE MATCH but has MATCH = 0 in the select list"
+					}
+				}
+			}
 		}
 		last := func(r []string) string { return r[len(r)-1] }
-		dc := sortedRows(e.Query(ctx, "SELECT * FROM t_ft_0_FTS_DOC_COUNT"), func(r []string) string {
+		// (word, C0, C1, …, value): which parent column each C_i holds is what the real GetKeyColumns says
+		// (KeyColumns.Positions); the observation lists the key values in *schema* order (id before k2), so
+		// it states "word w occurs n times in the row with this key" independently of the storage order —
+		// the storage order itself is pinned by the run table of `extract` (facts_key_columns) and by what
+		// the WHERE form finds through it
+		stored := realKeyOrdinals(ctx, e, lay)
+		keyedRow := func(r []string) string {
 			if keyed {
-				return "(" + hx.HexS(r[0]) + " " + r[1] + " " + last(r) + ")"
+				kv := append([]string{}, r[1:len(r)-1]...)
+				if len(stored) == len(kv) {
+					type pv struct {
+						o int
+						v string
+					}
+					pvs := make([]pv, len(kv))
+					for i := range kv {
+						pvs[i] = pv{stored[i], kv[i]}
+					}
+					sort.SliceStable(pvs, func(i, j int) bool { return pvs[i].o < pvs[j].o })
+					for i := range kv {
+						kv[i] = pvs[i].v
+					}
+				}
+				return "(" + hx.HexS(r[0]) + " " + strings.Join(kv, " ") + " " + last(r) + ")"
 			}
 			return "(" + hx.HexS(r[0]) + " " + last(r) + ")"
-		})
+		}
+		dc := sortedRows(e.Query(ctx, "SELECT * FROM t_ft_0_FTS_DOC_COUNT"), keyedRow)
 		gc := sortedRows(e.Query(ctx, "SELECT * FROM t_ft_0_FTS_GLOBAL_COUNT"), func(r []string) string {
 			w := r[0]
 			if ci {
@@ -370,16 +822,11 @@ func histCase(out *hx.Out, ci, keyed bool, ncols int, ops []op, queries []string
 		rc := sortedRows(e.Query(ctx, "SELECT * FROM t_ft_0_FTS_ROW_COUNT"), func(r []string) string {
 			return "(" + r[1] + " " + r[2] + ")"
 		})
-		pos := sortedRows(e.Query(ctx, "SELECT * FROM t_ft_0_FTS_POSITION"), func(r []string) string {
-			if keyed {
-				return "(" + hx.HexS(r[0]) + " " + r[1] + " " + last(r) + ")"
-			}
-			return "(" + hx.HexS(r[0]) + " " + last(r) + ")"
-		})
+		pos := sortedRows(e.Query(ctx, "SELECT * FROM t_ft_0_FTS_POSITION"), keyedRow)
 		// table contents (NULL is rendered as the text NULL by the client protocol; the vocabulary has no such word)
-		tb := sortedRows(e.Query(ctx, "SELECT id, "+ftCols+" FROM t"), func(r []string) string {
-			parts := []string{r[0]}
-			for _, c := range r[1:] {
+		tb := sortedRows(e.Query(ctx, "SELECT "+lay.rowCols()+", "+ftCols+" FROM t"), func(r []string) string {
+			parts := []string{rowS(r)}
+			for _, c := range r[nInt:] {
 				if c == "NULL" {
 					parts = append(parts, "null")
 				} else {
@@ -412,12 +859,23 @@ func histCase(out *hx.Out, ci, keyed bool, ncols int, ops []op, queries []string
 	if i, j := strings.Index(obs, " mw="), strings.Index(obs, " dc="); i > 0 && j > i {
 		nontriv = strings.ContainsAny(obs[i:j], "0123456789") && len(ops) >= 2
 	}
-	out.Case(hx.List("hist", b(ci), b(keyed), hx.List(opS...), hx.List(qS...)), obs, nontriv)
+	id := out.Case(hx.List("hist", b(ci), lay.sexp(), b(lay.tail), hx.List(opS...), hx.List(qS...)), obs, nontriv)
+	if setDiff != "" {
+		// its own region name (never a known finding): the known repeat defect changes multiplicities only
+		out.OracleFail(id, "where_form_row_set_differs", lay.name+" / "+lay.createSQL("t", ci, ncols)+": "+setDiff)
+	}
 	out.Stat("hist")
 	if keyed {
 		out.Stat("hist:keyed")
 	} else {
 		out.Stat("hist:keyless")
+	}
+	out.Stat("hist:lay:" + lay.name)
+	if lay.tail {
+		out.Stat("hist:tail")
+	}
+	if nontriv && len(lay.keyPositions()) >= 2 && lay.keyPositions()[0] > lay.keyPositions()[1] {
+		out.Stat("hist:key-out-of-column-order:matched")
 	}
 	if ci {
 		out.Stat("hist:ci")
@@ -482,11 +940,15 @@ func foldVariant(x, y []*string) bool {
 	return !same
 }
 
+type rkey struct{ id, k2 int }
+
 // genHist generates a DML history. Envelope: on a case-insensitive table an UPDATE never sets the text
 // columns to a case variant of a tuple used earlier in the history — the engine skips an UPDATE whose new
 // row equals the old one under the column collation (`UPDATE u SET a='APPLE'` leaves 'apple', with or
 // without a FULLTEXT index; a defect of UPDATE, not of this property: the index follows the table).
-func genHist(r *hx.Rand, ci, keyed bool, ncols int) []op {
+// Key values come from 1..6 so that composite keys share components, (x, y) / (y, x) pairs and x = y
+// rows all occur; the generator tracks the live keys approximately (the model decides what a statement does).
+func genHist(r *hx.Rand, ci bool, lay layout, ncols int) []op {
 	n := r.Range(1, 9)
 	var ops []op
 	var used [][]*string
@@ -504,27 +966,69 @@ func genHist(r *hx.Rand, ci, keyed bool, ncols int) []op {
 			}
 		}
 	}
-	live := map[int]bool{}
+	cons := lay.constraints()
+	val := func(k rkey, o int) int {
+		if o == 0 {
+			return k.id
+		}
+		return k.k2
+	}
+	conflict := func(a, b rkey) bool {
+		for _, cs := range cons {
+			eq := true
+			for _, o := range cs {
+				eq = eq && val(a, o) == val(b, o)
+			}
+			if eq {
+				return true
+			}
+		}
+		return false
+	}
+	var live []rkey
+	clash := func(k rkey, skipID int) bool {
+		for _, l := range live {
+			if l.id != skipID && conflict(k, l) {
+				return true
+			}
+		}
+		return false
+	}
 	ids := func() []int {
+		seen := map[int]bool{}
 		var l []int
-		for k := range live {
-			l = append(l, k)
+		for _, k := range live {
+			if !seen[k.id] {
+				seen[k.id] = true
+				l = append(l, k.id)
+			}
 		}
 		sort.Ints(l)
 		return l
 	}
+	nKinds := 10
+	if lay.k2 {
+		nKinds = 11
+	}
 	for i := 0; i < n; i++ {
 		l := ids()
-		k := r.Intn(10)
+		k := r.Intn(nKinds)
 		switch {
 		case len(l) == 0 || k < 5:
-			id := r.Range(1, 6)
-			if keyed && live[id] && !r.Chance(1, 6) { // mostly fresh keys; sometimes a duplicate-key failure
-				for id = 1; live[id]; id++ {
+			nk := rkey{id: r.Range(1, 6)}
+			if lay.k2 {
+				nk.k2 = r.Range(1, 6)
+			}
+			if len(cons) > 0 && !r.Chance(1, 6) { // mostly fresh keys; sometimes a duplicate-key failure
+				for try := 0; try < 30 && clash(nk, -1); try++ {
+					nk.id = r.Range(1, 8)
+					if lay.k2 {
+						nk.k2 = r.Range(1, 8)
+					}
 				}
 			}
-			o := op{kind: "ins", id: id, cols: genCols(r, ncols)}
-			if !keyed && len(ops) > 0 && r.Chance(1, 4) { // exact duplicate of an earlier insert (same row hash)
+			o := op{kind: "ins", id: nk.id, k2: nk.k2, cols: genCols(r, ncols)}
+			if len(cons) == 0 && len(ops) > 0 && r.Chance(1, 4) { // exact duplicate of an earlier insert (same row hash)
 				for _, prev := range ops {
 					if prev.kind == "ins" {
 						o = prev
@@ -534,7 +1038,9 @@ func genHist(r *hx.Rand, ci, keyed bool, ncols int) []op {
 			}
 			ops = append(ops, o)
 			used = append(used, o.cols)
-			live[o.id] = true
+			if nk = (rkey{o.id, o.k2}); !clash(nk, -1) {
+				live = append(live, nk)
+			}
 		case k < 7:
 			o := op{kind: "upd", id: hx.Pick(r, l), cols: genUpd()}
 			ops = append(ops, o)
@@ -542,14 +1048,43 @@ func genHist(r *hx.Rand, ci, keyed bool, ncols int) []op {
 		case k < 9:
 			id := hx.Pick(r, l)
 			ops = append(ops, op{kind: "del", id: id})
-			delete(live, id)
+			var rest []rkey
+			for _, x := range live {
+				if x.id != id {
+					rest = append(rest, x)
+				}
+			}
+			live = rest
 		default:
 			id := hx.Pick(r, l)
 			nw := r.Range(1, 8)
-			ops = append(ops, op{kind: "rekey", id: id, n: nw})
-			if !(keyed && live[nw] && nw != id) {
-				delete(live, id)
-				live[nw] = true
+			kind := "rekey"
+			if k == 10 {
+				kind = "rekey2"
+			}
+			ops = append(ops, op{kind: kind, id: id, n: nw})
+			moved := func(x rkey) rkey {
+				if kind == "rekey" {
+					return rkey{nw, x.k2}
+				}
+				return rkey{x.id, nw}
+			}
+			ok, cnt := true, 0
+			for _, x := range live {
+				if x.id == id {
+					cnt++
+					ok = ok && !clash(moved(x), id)
+				}
+			}
+			if kind == "rekey2" && len(cons) > 0 && cnt >= 2 {
+				ok = false
+			}
+			if ok {
+				for j, x := range live {
+					if x.id == id {
+						live[j] = moved(x)
+					}
+				}
 			}
 		}
 	}
@@ -579,8 +1114,11 @@ func run(a hx.RunArgs) error {
 	defer out.Close()
 	out.Rule = "tok: every string over {a, ', space, é} up to a length bound (exhaustive) and random documents over letters of 1-4 bytes, digits of other scripts, " +
 		"underscore, apostrophes, punctuation, combining marks, emoji and invalid UTF-8, under utf8mb4_0900_bin and _ai_ci; non-trivial = at least one word. " +
-		"hist: FULLTEXT tables (with / without primary key, 1-2 indexed columns, bin / ai_ci) under 1-9 INSERT/UPDATE/DELETE/key-changing statements " +
-		"(duplicate rows, duplicate-key failures, NULL columns, words around the 84-byte limit), then 3 MATCH queries (two SQL forms) and the four pseudo-index tables; " +
+		"hist: FULLTEXT tables over 12 key layouts (no key; PRIMARY KEY single / composite in column order / composite declared out of column order / on the second column; " +
+		"usable UNIQUE KEY in / out of column order / first of two; UNIQUE KEY with a nullable column; primary + unique), key columns before or after the text columns, " +
+		"1-2 indexed columns, bin / ai_ci, under 1-9 INSERT/UPDATE/DELETE/key-changing statements (either key component; statements hitting several rows; " +
+		"duplicate rows, duplicate-key failures, NULL columns, words around the 84-byte limit), then 3 MATCH queries (WHERE form and select-list form) and the four pseudo-index tables " +
+		"with their key columns C0 C1 …; " +
 		"non-trivial = at least 2 statements and some query matched a row"
 	// hx.NewRand(s+1) is hx.NewRand(s) shifted by one draw: fork, and give every stream its own generator
 	root := hx.NewRand(a.Seed).Fork()
@@ -594,23 +1132,44 @@ func run(a hx.RunArgs) error {
 		tokCase(out, ctx, true, d)
 	}
 	s := func(x string) *string { return &x }
-	histCase(out, false, true, 2, []op{
+	histCase(out, false, layoutByName("pk1"), 2, []op{
 		{kind: "ins", id: 1, cols: []*string{s("Hello world, it's me"), s("foo bar")}},
 		{kind: "ins", id: 2, cols: []*string{s("WORLD peace don't"), s("x")}},
 		{kind: "ins", id: 3, cols: []*string{nil, s("hello")}},
 		{kind: "upd", id: 1, cols: []*string{s("changed text"), s("foo bar")}},
 	}, []string{"hello", "world changed", "it's"})
-	histCase(out, true, false, 1, []op{
+	histCase(out, true, layoutByName("none1"), 1, []op{
 		{kind: "ins", id: 1, cols: []*string{s("Hello hello world")}},
 		{kind: "ins", id: 2, cols: []*string{s("Hello hello world")}},
 		{kind: "ins", id: 1, cols: []*string{s("Hello hello world")}},
 		{kind: "ins", id: 3, cols: []*string{s("bye world")}},
 		{kind: "del", id: 1},
 	}, []string{"HELLO", "world", "bye"})
+	// every key layout (both column placements) under the same small history: rows whose key components
+	// differ, a transposed pair (1,2) / (2,1), a row with equal components, a key change of each component
+	for _, lay := range layouts {
+		for _, tail := range []bool{false, true} {
+			lay.tail = tail
+			ops := []op{
+				{kind: "ins", id: 1, k2: 2, cols: []*string{s("sun apple")}},
+				{kind: "ins", id: 2, k2: 1, cols: []*string{s("sun banana")}},
+				{kind: "ins", id: 3, k2: 3, cols: []*string{s("apple pie")}},
+				{kind: "ins", id: 4, k2: 5, cols: []*string{s("banana")}},
+				{kind: "ins", id: 1, k2: 2, cols: []*string{s("rejected unless keyless")}},
+				{kind: "rekey", id: 4, n: 6},
+				{kind: "upd", id: 3, cols: []*string{s("apple sun")}},
+			}
+			if lay.k2 {
+				ops = append(ops, op{kind: "rekey2", id: 2, n: 4}, op{kind: "ins", id: 5, k2: 1, cols: []*string{s("pie")}})
+			}
+			ops = append(ops, op{kind: "del", id: 3})
+			histCase(out, false, lay, 1, ops, []string{"sun", "banana", "pie apple"})
+		}
+	}
 
-	maxLen, nTok, nHist := 6, 3000, 250
+	maxLen, nTok, nHist := 6, 3000, 1000
 	if a.Thorough {
-		maxLen, nTok, nHist = 9, 400000, 12000
+		maxLen, nTok, nHist = 9, 400000, 20000
 	}
 	for _, d := range allStrings([]string{"a", "'", " ", "é"}, maxLen) {
 		tokCase(out, ctx, false, d)
@@ -624,12 +1183,16 @@ func run(a hx.RunArgs) error {
 		tokCase(out, ctx, rndTok.Chance(1, 3), b.String())
 	}
 	for i := 0; i < nHist; i++ {
-		keyed := rnd.Chance(1, 2)
+		lay := hx.Pick(rnd, layouts)
+		if rnd.Chance(1, 4) { // more weight on keys declared out of column order
+			lay = layoutByName(hx.Pick(rnd, []string{"pk_ba", "uk_ba", "pk_ba_uk"}))
+		}
+		lay.tail = rnd.Chance(1, 3)
 		ncols := rnd.Range(1, 2)
 		ci := rnd.Chance(1, 2)
-		ops := genHist(rnd, ci, keyed, ncols)
+		ops := genHist(rnd, ci, lay, ncols)
 		qs := []string{hx.Pick(rnd, vocab), genDoc(rnd), hx.Pick(rnd, vocab) + " " + hx.Pick(rnd, vocab)}
-		histCase(out, ci, keyed, ncols, ops, qs)
+		histCase(out, ci, lay, ncols, ops, qs)
 	}
 	return nil
 }
